@@ -72,6 +72,14 @@ let handle ws = match ws with
     if len k <> 16 || len b <> 16 then "ERR bad-op" else
     if dir = "enc" then both (hx (block_cipher_encrypt (block_cipher_set_encrypt_key bLOCK_CIPHER_sm4 k) b)) (hx (specE k b))
     else both (hx (block_cipher_decrypt (block_cipher_set_decrypt_key bLOCK_CIPHER_sm4 k) b)) (hx (specD k b))
+  | ["bca"; dir; key; blk] ->
+    let k = bytes_of_hex key and b = bytes_of_hex blk in
+    if len k <> 16 || len b <> 16 then "ERR bad-op" else
+    if dir = "enc" then both (hx (bc_aes128_encrypt (bc_aes128_set_encrypt_key k) b)) (hx (aes_encrypt_block k b))
+    else
+      (* the Spec only: as coded the aes128 object decrypts with aes_encrypt (bc_aes128_decrypt), which
+         is not the inverse; see Example bc_aes128_decrypt_refuted *)
+      hx (aes_decrypt_block k b)
   | ["ecbblocks"; dir; key; data; _] ->
     let k = bytes_of_hex key and d = bytes_of_hex data in
     let n = nat (len d / 16) in
